@@ -449,6 +449,38 @@ func init() {
 			lf.raw(fmt.Sprintf("\n  (%s, %s, %s, %s, %s)", tokLeanStr(l[0]), tokLeanStr(l[1]), tokLeanStr(l[2]), tokLeanStr(strings.ToLower(l[2])), tokLeanStr(l[3])))
 		}
 		lf.raw("]\n\n")
+		// the three setters of api/config_util.go: plain forwarders to configutil (no transformation of the value,
+		// in particular no length cap on a secret)?
+		lf.raw("/-- api/config_util.go: the body of each setter is exactly `return configutil.SetYConfig(configPrefix, idx, orig)` -/\n")
+		lf.raw("def settersPlain : List (String × Bool) := [")
+		for i, nm := range []string{"setStringConfig", "setBytesConfig", "setIntConfig"} {
+			fd := tokFunc(p, nm)
+			plain := false
+			if len(fd.Body.List) == 1 && fd.Type.Params != nil {
+				var params []string
+				for _, f := range fd.Type.Params.List {
+					for _, n := range f.Names {
+						params = append(params, n.Name)
+					}
+				}
+				if rs, ok := fd.Body.List[0].(*ast.ReturnStmt); ok && len(rs.Results) == 1 && len(params) == 2 {
+					if call, ok := rs.Results[0].(*ast.CallExpr); ok && len(call.Args) == 3 {
+						want := "configutil.S" + nm[1:]
+						if types.ExprString(call.Fun) == want && tokIdent(call.Args[0]) == "configPrefix" &&
+							tokIdent(call.Args[1]) == params[0] && tokIdent(call.Args[2]) == params[1] {
+							if _, isConv := call.Args[2].(*ast.CallExpr); !isConv {
+								plain = true
+							}
+						}
+					}
+				}
+			}
+			if i > 0 {
+				lf.raw(", ")
+			}
+			lf.raw(fmt.Sprintf("(%s, %v)", tokLeanStr(nm), plain))
+		}
+		lf.raw("]\n\n")
 		lf.raw("/-- the package-level variables of api/00-config.go that config() assigns or reads, with their initial\n    values as bytes (an int as its decimal digits) -/\n")
 		lf.raw("def initialVars : List (String × List Nat) := [")
 		seen := map[string]bool{}
